@@ -48,7 +48,10 @@ type Unit struct {
 	Instrs      int
 }
 
-type State struct{ m map[string]string }
+type State struct {
+	m      map[string]string
+	formal *[]string // when set: reads return formal parameter symbols (used to define recursive spec functions)
+}
 
 func (s *State) clone() *State {
 	n := &State{m: make(map[string]string, len(s.m))}
@@ -137,6 +140,7 @@ type vcgen struct {
 	inputs     []string
 	witness    []Wit
 
+	recSpecs  map[string][]string // recursive spec function -> state variables it takes as extra arguments
 	lockSnaps map[string]*State
 	closures  map[string]*ssa.MakeClosure
 	freshObjs map[string]bool
@@ -257,6 +261,18 @@ func (g *vcgen) base(name string) string {
 }
 
 func (g *vcgen) get(st *State, name string) string {
+	if st.formal != nil {
+		found := false
+		for _, n := range *st.formal {
+			if n == name {
+				found = true
+			}
+		}
+		if !found {
+			*st.formal = append(*st.formal, name)
+		}
+		return q("hf." + name)
+	}
 	if v, ok := st.m[name]; ok {
 		return v
 	}
